@@ -40,7 +40,7 @@ def sharded(cmd, outprefix, seed):
 
 def run(rep, tier, seed):
     thorough = tier == "thorough"
-    rep.assumptions += ["spec/Gate.tla: cfg (VM) / pcfg (parser's copy) machine with macro lines, gated items, st values, End discarding the copy; TLC checks FamilyGated, StmtsGated, NDiceGated, BitGated, CopyDiffers, MacroScoped, CfgStable on every bounded behaviour",
+    rep.assumptions += ["spec/Gate.tla: cfg (VM) / pcfg (parser's copy) machine with macro lines, gated items, st values, End discarding the copy; TLC checks FamilyGated, StmtsGated, NDiceGated, BitGated, CopyDiffers, MacroScoped, CfgStable and GuardAgrees (the look-ahead pass and the real parse see the same flags for every item) on every bounded behaviour; the grammar as it was (GuardSeesSwitches=FALSE) and macro lines inside template blocks in mid-expression (HoleMacros=TRUE, a recorded defect) are required to FAIL GuardAgrees",
                         "an enabling macro is a line `// #EnableDice <family> true` (recognised textually: the check is lenient if that text occurs where it is not a macro)",
                         "spellings of one item per family are those of Gate!Forms; the spellings space is every string up to the stated length over `abcfpdkqm120()+ ` under all 128 flag sets",
                         "families executed may come from code compiled by EARLIER inputs of the same VM that carried an enabling macro (functions, computed values)",
@@ -54,6 +54,12 @@ def run(rep, tier, seed):
         p2, r2 = plans(w, "plans_b.ndjson", 1, 2)
         p3, r3 = plans(w, "plans_c.ndjson", 4, 3, simulate="num=%d" % (30000 if thorough else 2500), seed=seed)
         p4, r4 = plans(w, "plans_d.ndjson", 2, 2, cfg="GateMC_focus.cfg")
+        # the two-pass structure: the grammar as it was (switches of an st value set by an action) and macro lines inside template
+        # blocks in mid-expression (a recorded defect of the code) must both be refuted on GuardAgrees
+        for cfgname in ("GateMC_estaswas.cfg", "GateMC_holemacro.cfg"):
+            rs = run_tlc(w, "GateMC", cfgname, env={"MAXITEMS": 2, "MAXRUNS": 1, "OUT": w.path("unused")}, workers=1, timeout=600)
+            if not rs.inv_violation:
+                raise MachineryError("Gate: %s should violate GuardAgrees" % cfgname)
         rep.set("states", r1.distinct + r2.distinct + r4.distinct); rep.set("transitions", r1.generated + r2.generated + r4.generated)
         stats["tlc"] = {"exhaustive_items<=%d_runs=1" % (3 if thorough else 2): r1.distinct, "exhaustive_items<=1_runs=2": r2.distinct, "simulated_plans": sum(1 for _ in open(p3))}
         nplans = 0
